@@ -127,9 +127,17 @@ fn main() {
                 resume,
                 rest,
             );
-            if !props::run(&mut ctx) {
-                eprintln!("unknown property {}", prop);
-                std::process::exit(2);
+            // a panic that escapes here is a harness bug, not an observation: say so loudly
+            match mon::catch(|| props::run(&mut ctx)) {
+                Ok(true) => {}
+                Ok(false) => {
+                    eprintln!("unknown property {}", prop);
+                    std::process::exit(2);
+                }
+                Err((m, l)) => {
+                    eprintln!("HARNESS-PANIC: {} at {}", m, l);
+                    std::process::exit(101);
+                }
             }
             ctx.finish();
         }
